@@ -233,6 +233,10 @@ fn render_callback_module(idx: usize, sd: &SubjectDef) -> String {
             if !skipped {
                 body.push_str(&format!("    #[{attr}({}{})]\n", p.lit.rust(), render_args(leaf, p, true)));
             }
+            // several patterns may be stacked on one variant: the variant line follows the last of them
+            if leaves.get(leaf + 1).map(|(_, v)| *v == Some(*vi)).unwrap_or(false) {
+                continue;
+            }
             if slice_variant(leaf, p) {
                 body.push_str(&format!("    V{vi}({slice_ty}),\n"));
             } else if sd.has_value.get(leaf).copied().unwrap_or(false) {
@@ -250,6 +254,9 @@ fn render_callback_module(idx: usize, sd: &SubjectDef) -> String {
         s.push_str(&format!("    impl{} Tok for {name}{} {{\n        fn id(&self) -> usize {{ match self {{", if lt { "<'s>" } else { "" }, if lt { "<'s>" } else { "" }));
         for (leaf, (_, variant)) in leaves.iter().enumerate() {
             if let Some(vi) = variant {
+                if leaves.get(leaf + 1).map(|(_, v)| *v == Some(*vi)).unwrap_or(false) {
+                    continue;
+                }
                 if sd.has_value.get(leaf).copied().unwrap_or(false) {
                     s.push_str(&format!(" {name}::V{vi}(_) => {vi},"));
                 } else {
@@ -405,7 +412,18 @@ pub fn table_defs() -> Vec<SubjectDef> {
             p.callback = Some(CbSpec { ret, salt: salt0 + 40 + ret as u32, bump: 0, form: (k as u8) % 4 });
             variants.push(vec![p]);
         }
-        let mut has_value = vec![false; variants.len()];
+        // patterns stacked on one variant: a plain one followed by one with a callback, and the other way round
+        {
+            let plain = PatSpec::token(LitSpec::str("yy"));
+            let mut cb = PatSpec::regex(LitSpec::str("y[0-9]{1,2}"));
+            cb.callback = Some(CbSpec { ret: 1, salt: salt0 + 61, bump: 0, form: 0 });
+            variants.push(vec![plain, cb]);
+            let mut cb2 = PatSpec::regex(LitSpec::str("x[0-9]{1,2}"));
+            cb2.callback = Some(CbSpec { ret: 5, salt: salt0 + 62, bump: 0, form: 3 });
+            variants.push(vec![cb2, PatSpec::token(LitSpec::str("xx"))]);
+        }
+        let n_leaves: usize = variants.iter().map(|v| v.len()).sum();
+        let mut has_value = vec![false; n_leaves];
         let mut sk = PatSpec::regex(LitSpec::str(" "));
         sk.callback = None;
         // the pair with an error callback lexes [u8]
